@@ -163,6 +163,23 @@ def request_field_casts(prog):
 @rule("C17", "R17.3", "lossy integer conversions of request fields are guarded", floor=3)
 def r17_3(prog, out):
     casts = request_field_casts(prog)
+    # conversions of request integers written without `as` (TryFrom / From / unsigned_abs) cannot wrap silently: they count as
+    # analysed sites, so that a code base that has replaced its casts by checked conversions is not `fewer instances than counted`
+    sl0 = Slicer(prog)
+    for bid0, b0 in prog.facts.bodies.items():
+        if b0.crate != "lib" or b0.file.startswith("/"):
+            continue
+        bi0 = prog.info(bid0)
+        for cbb, t in bi0.calls(lambda c: c.path in ("std::convert::TryFrom::try_from", "std::convert::From::from", "std::convert::TryInto::try_into", "std::convert::Into::into")
+                                or c.path.split("::")[-1] == "unsigned_abs"):
+            if not t.args or (b0.operand_ty(t.args[0]) or "") not in ("i32", "i64", "u32", "u64", "usize", "i16", "u16"):
+                continue
+            sc = sl0.of(bid0, t.args[0])
+            proto = [f for f in sc.fields if f[0].startswith("crate::pubsub_proto::")]
+            raw_param = any(r[0] == "param" and b0.local_ty(r[2]) in ("i32", "i64") and b0.id.startswith("crate::api::parser") for r in sc.roots)
+            if proto or raw_param:
+                out.holds("conv:%s:%s:%s" % (prog.short(bid0), t.callee.path.split("::")[-1], ".".join(f[1] for f in sorted(proto)) or "param"), bi0.loc(cbb),
+                          "checked / lossless conversion (no `as`)")
     for (bid, bb, i, s, frm, to, proto) in casts:
         bi = prog.info(bid)
         b = bi.body
@@ -252,8 +269,25 @@ def r17_3(prog, out):
             elif to == "i32" and frm == "u64" and (not proto or (src.kind == "call" and not src.path and bi.call_at(src.data).callee is not None
                                                                  and bi.call_at(src.data).callee.path == "std::time::Duration::as_secs")):
                 out.holds(key, bi.loc(bb), "response-side cast of a stored duration (seconds of a Duration built from a clamped i32, R04.3)")
+            elif range_guarded(prog, bi, bb, srckey):
+                out.undecided(key, bi.loc(bb), "the cast runs only where a range membership test (`RANGE.contains(&v)`) of the value succeeded; the bounds of the range "
+                              "constant are not evaluated")
             else:
                 out.violation(key, bi.loc(bb), "request value in [%d,%d] is cast %s -> %s without a guard: out-of-range values wrap silently" % (lo, hi, frm, to))
+
+
+def range_guarded(prog, bi, target_bb, srckey):
+    """target_bb lies on the true arm of `<range>.contains(&value)` for the analysed value"""
+    from mapstate import _bool_switches
+    for cbb, t in bi.calls(lambda c: c.path.split("::")[-1] == "contains" and "ops::Range" in c.path):
+        if len(t.args) < 2 or t.dest is None or not t.dest.is_local():
+            continue
+        if bi.trace(t.args[1]).key() != srckey:
+            continue
+        for sw, tr, fa in _bool_switches(bi, t.dest.local):
+            if tr is not None and target_bb in bi.cfg.edge_dominated(sw, tr):
+                return True
+    return False
 
 
 def region_interval_at(prog, bi, w, target_bb):
@@ -285,6 +319,43 @@ def region_interval_at(prog, bi, w, target_bb):
     if not los:
         return None, None
     return min(los), max(his)
+
+
+def table_decisions(prog, bi, flag_local, negated=False):
+    """The flag is not branched on directly but put into a table (`[("name", flag), ..]`) that is searched with
+    `iter().find(|(_, set)| *set)` / `any` / `position`: [(switch, target when some flag is set, target when none is)].
+    `negated`: the table holds `!flag`."""
+    from mapstate import _bool_switches, presence_switches
+    from props.c05 import flows_into
+    out = []
+    src = flag_local
+    if negated:
+        # the local holding `!flag`
+        for blk in bi.body.blocks:
+            for st in blk.stmts:
+                if st.k == "assign" and st.lhs.is_local() and st.rv.k == "un" and st.rv.j.get("op") == "Not" and st.rv.ops[0].place is not None \
+                        and st.rv.ops[0].place.local == flag_local:
+                    src = st.lhs.local
+        if src == flag_local:
+            return out
+    for bb, t in bi.calls(lambda c: c.path in ("std::iter::Iterator::find", "std::iter::Iterator::any", "std::iter::Iterator::position")):
+        if not t.args or t.args[0].place is None or t.dest is None or not t.dest.is_local():
+            continue
+        if not flows_into(bi, src, {t.args[0].place.local}):
+            continue
+        # the predicate only looks at the stored flag (no calls in the closure)
+        co = bi.trace(t.args[1]) if len(t.args) > 1 else None
+        if co is None or co.kind != "agg":
+            continue
+        cid = prog.qual(bi.body, bi.agg_at(co.data).j.get("def", ""))
+        ci = prog.info(cid)
+        if ci is None or any(True for _ in ci.calls()):
+            continue
+        if t.callee.path.endswith("::any"):
+            out += [(sw, tr, fa) for sw, tr, fa in _bool_switches(bi, t.dest.local)]
+        else:
+            out += [(sw, pt, at) for sw, pt, at in presence_switches(bi, bb, "option") if at != "self"]
+    return out
 
 
 @rule("C17", "R17.4", "a later StreamingPull message that sets subscription / max_outstanding_* is rejected with INVALID_ARGUMENT; an unset field is not", floor=3)
@@ -329,7 +400,9 @@ def r17_4(prog, out):
                     continue
                 ev = {"Eq": lambda v: v == cst, "Ne": lambda v: v != cst, "Gt": lambda v: v > cst, "Ge": lambda v: v >= cst,
                       "Lt": lambda v: v < cst, "Le": lambda v: v <= cst}[op]
-                for sw, tr, fa in _bool_switches(bi, st.lhs.local):
+                decisions = list(_bool_switches(bi, st.lhs.local))
+                decisions += table_decisions(prog, bi, st.lhs.local)
+                for sw, tr, fa in decisions:
                     tr_rej, fa_rej = rejects(tr), rejects(fa)
                     if tr_rej == fa_rej:
                         continue
@@ -350,7 +423,10 @@ def r17_4(prog, out):
             if not (cs and cs[-1] == (req, "subscription")):
                 continue
             # only the per-message check (the first request's subscription is parsed, not tested for emptiness)
-            for sw, tr, fa in _bool_switches(bi, t.dest.local):
+            subs = list(_bool_switches(bi, t.dest.local))
+            # through a table of (name, is_set) searched with find / any: is_set = !is_empty(), found <=> some flag set
+            subs += [(sw, fa2, tr2) for (sw, tr2, fa2) in table_decisions(prog, bi, t.dest.local, negated=True)]
+            for sw, tr, fa in subs:
                 if rejects(fa) == rejects(tr):
                     continue
                 found.add("subscription")
